@@ -112,6 +112,12 @@ func (ps *PrintState) Print(str ...string) *PrintState {
 		ps.IndentationDone = true
 	}
 	for _, s := range str {
+		if ps.Compact && s != "" && ps.last != "" {
+			// a+ +b, a- -b, a+ ++b: without a separator the lexer would see ++ / --.
+			if l := ps.last[len(ps.last)-1]; (l == '+' || l == '-') && s[0] == l {
+				_, _ = ps.Out.Write([]byte{' '})
+			}
+		}
 		_, _ = ps.Out.Write([]byte(s))
 		ps.last = s
 	}
@@ -356,6 +362,12 @@ func (i InfixExpression) PrettyPrint(out *PrintState) *PrintState {
 	if i.Right == nil {
 		out.Print("nil")
 	} else {
+		// Every binary operator parses left associative: a same precedence expression on the right side was
+		// parenthesized in the source and must stay so (a-(b-c) is not a-b-c, a+(b|c) is not a+b|c); only a chain
+		// of + is still printed without them (1+(2+3) as 1+2+3).
+		if !plusChain(i, i.Right) {
+			out.ExpressionPrecedence++
+		}
 		i.Right.PrettyPrint(out)
 	}
 	if needParen {
@@ -363,6 +375,14 @@ func (i InfixExpression) PrettyPrint(out *PrintState) *PrintState {
 	}
 	out.ExpressionPrecedence = oldPrecedence
 	return out
+}
+
+func plusChain(i InfixExpression, right Node) bool {
+	r, ok := right.(*InfixExpression)
+	if !ok || r.Token != i.Token {
+		return false
+	}
+	return i.Type() == token.PLUS
 }
 
 type Boolean struct {
